@@ -7,4 +7,435 @@ import BiscuitModel.Proofs.Datalog
 
 namespace Biscuit
 
+/-! ### `DerivableP`: monotonicity, congruence, link with `Derivable` -/
+
+theorem DerivableP.mono {cfg : EvalCfg} {P : List DRule} {B B' : DFact → Prop}
+    (h : ∀ f, B f → B' f) : ∀ f, DerivableP cfg P B f → DerivableP cfg P B' f := by
+  intro f hd
+  induction hd with
+  | base hf => exact DerivableP.base (h _ hf)
+  | rule hr hsome _ hdom hex hhead ih => exact DerivableP.rule hr hsome ih hdom hex hhead
+
+theorem DerivableP.congr {cfg : EvalCfg} {P : List DRule} {B B' : DFact → Prop}
+    (h : ∀ f, B f ↔ B' f) (f : DFact) : DerivableP cfg P B f ↔ DerivableP cfg P B' f :=
+  ⟨DerivableP.mono (fun g => (h g).mp) f, DerivableP.mono (fun g => (h g).mpr) f⟩
+
+theorem derivable_iff_derivableP (cfg : EvalCfg) (P : List DRule) (F : List DFact) (f : DFact) :
+    Derivable (evalBool cfg) P F f ↔ DerivableP cfg P (fun g => g ∈ F) f := by
+  constructor
+  · intro hd
+    induction hd with
+    | base hf => exact DerivableP.base hf
+    | rule hr hsome _ hdom hex hhead ih => exact DerivableP.rule hr hsome ih hdom hex hhead
+  · intro hd
+    induction hd with
+    | base hf => exact Derivable.base hf
+    | rule hr hsome _ hdom hex hhead ih => exact Derivable.rule hr hsome ih hdom hex hhead
+
+/-! ### Runs compute closures -/
+
+theorem runWorld_spec (cfg : EvalCfg) (lim : Limits) (W w : World)
+    (h : runWorld cfg lim W = (w, none)) (f : DFact) :
+    f ∈ w.facts ↔ DerivableP cfg W.rules (fun g => g ∈ W.facts) f := by
+  unfold runWorld at h
+  simp only [Prod.mk.injEq] at h
+  obtain ⟨hw, hnone⟩ := h
+  have hrun : run (evalBool cfg) lim.maxFacts W.rules lim.maxIter W.facts = (w.facts, none) := by
+    rw [← hw]
+    exact Prod.ext rfl hnone
+  rw [← derivable_iff_derivableP]
+  exact ⟨run_sound _ (evalBool_respects cfg) _ _ _ _ _ hrun f,
+         run_complete _ (evalBool_respects cfg) _ _ _ _ _ hrun f⟩
+
+/-- The authority-level run computes the authority scope. -/
+theorem authorityRun_spec (cfg : EvalCfg) (A : Block) (s : AuthState) (w : World)
+    (h : runWorld cfg s.limits
+      { facts := insertAll s.world.facts A.facts, rules := s.world.rules ++ A.rules } = (w, none))
+    (f : DFact) : f ∈ w.facts ↔ authorityScope cfg A s f := by
+  rw [runWorld_spec cfg _ _ _ h f]
+  unfold authorityScope
+  exact DerivableP.congr (fun g => mem_insertAll _ _ g) f
+
+/-- A later block's run computes that block's scope. -/
+theorem blockRun_spec (cfg : EvalCfg) (A : Block) (s : AuthState) (lim : Limits) (b : Block)
+    (base : List DFact) (hbase : ∀ f, f ∈ base ↔ authorityScope cfg A s f) (wb : World)
+    (h : runWorld cfg lim { facts := insertAll base b.facts, rules := b.rules } = (wb, none))
+    (f : DFact) : f ∈ wb.facts ↔ blockScope cfg A s b f := by
+  rw [runWorld_spec cfg _ _ _ h f]
+  unfold blockScope
+  refine DerivableP.congr (fun g => ?_) f
+  show g ∈ insertAll base b.facts ↔ _
+  rw [mem_insertAll, hbase]
+
+/-! ### Queries, checks, policies -/
+
+theorem QHolds.congr {cfg : EvalCfg} {M M' : DFact → Prop} (h : ∀ f, M f ↔ M' f) (q : DRule) :
+    QHolds cfg M q ↔ QHolds cfg M' q := by
+  unfold QHolds
+  constructor
+  · rintro ⟨σ, f, hb, rest⟩
+    exact ⟨σ, f, fun p hp => (hb p hp).imp fun g hg => ⟨hg.1, (h g).mp hg.2⟩, rest⟩
+  · rintro ⟨σ, f, hb, rest⟩
+    exact ⟨σ, f, fun p hp => (hb p hp).imp fun g hg => ⟨hg.1, (h g).mpr hg.2⟩, rest⟩
+
+theorem CheckHolds.congr {cfg : EvalCfg} {M M' : DFact → Prop} (h : ∀ f, M f ↔ M' f) (c : Check) :
+    CheckHolds cfg M c ↔ CheckHolds cfg M' c := by
+  unfold CheckHolds
+  constructor
+  · rintro ⟨q, hq, hh⟩; exact ⟨q, hq, (QHolds.congr h q).mp hh⟩
+  · rintro ⟨q, hq, hh⟩; exact ⟨q, hq, (QHolds.congr h q).mpr hh⟩
+
+theorem PolicyHolds.congr {cfg : EvalCfg} {M M' : DFact → Prop} (h : ∀ f, M f ↔ M' f) (p : Policy) :
+    PolicyHolds cfg M p ↔ PolicyHolds cfg M' p := by
+  unfold PolicyHolds
+  constructor
+  · rintro ⟨q, hq, hh⟩; exact ⟨q, hq, (QHolds.congr h q).mp hh⟩
+  · rintro ⟨q, hq, hh⟩; exact ⟨q, hq, (QHolds.congr h q).mpr hh⟩
+
+theorem queryHolds_iff (cfg : EvalCfg) (W : List DFact) (q : DRule)
+    (h : (applyRule (evalBool cfg) q W []).2 = none) :
+    queryHolds cfg W q = true ↔ QHolds cfg (fun g => g ∈ W) q := by
+  have happ : applyRule (evalBool cfg) q W [] = ((applyRule (evalBool cfg) q W []).1, none) :=
+    Prod.ext rfl h
+  have hspec := applyRule_spec (evalBool cfg) (evalBool_respects cfg) q W [] _ happ
+  unfold queryHolds queryRule QHolds
+  constructor
+  · intro hq
+    cases hout : (applyRule (evalBool cfg) q W []).1 with
+    | nil => rw [hout] at hq; simp at hq
+    | cons f fs =>
+      have hf : f ∈ (applyRule (evalBool cfg) q W []).1 := by rw [hout]; exact List.mem_cons_self ..
+      rcases (hspec f).mp hf with hf | ⟨σ, hsat, hhead⟩
+      · cases hf
+      · exact ⟨σ, f, hsat.body, hsat.dom, hsat.exprs, hhead⟩
+  · rintro ⟨σ, f, hb, hdom, hex, hhead⟩
+    have hf : f ∈ (applyRule (evalBool cfg) q W []).1 :=
+      (hspec f).mpr (Or.inr ⟨σ, ⟨hb, hdom, hex⟩, hhead⟩)
+    cases hout : (applyRule (evalBool cfg) q W []).1 with
+    | nil => rw [hout] at hf; cases hf
+    | cons g gs => simp
+
+theorem any_queryHolds_iff (cfg : EvalCfg) (W : List DFact) (M : DFact → Prop)
+    (hM : ∀ f, f ∈ W ↔ M f) (qs : List DRule)
+    (h : ∀ q ∈ qs, (applyRule (evalBool cfg) q W []).2 = none) :
+    qs.any (queryHolds cfg W) = true ↔ ∃ q ∈ qs, QHolds cfg M q := by
+  rw [List.any_eq_true]
+  constructor
+  · rintro ⟨q, hq, hh⟩
+    exact ⟨q, hq, (QHolds.congr hM q).mp ((queryHolds_iff cfg W q (h q hq)).mp hh)⟩
+  · rintro ⟨q, hq, hh⟩
+    exact ⟨q, hq, (queryHolds_iff cfg W q (h q hq)).mpr ((QHolds.congr hM q).mpr hh)⟩
+
+theorem checkHolds_iff (cfg : EvalCfg) (W : List DFact) (M : DFact → Prop)
+    (hM : ∀ f, f ∈ W ↔ M f) (c : Check)
+    (h : ∀ q ∈ c.queries, (applyRule (evalBool cfg) q W []).2 = none) :
+    checkHolds cfg W c = true ↔ CheckHolds cfg M c :=
+  any_queryHolds_iff cfg W M hM c.queries h
+
+/-! ### Failure lists -/
+
+theorem mem_failedFrom (cfg : EvalCfg) (W : List DFact) (mk : Nat → CheckId) :
+    ∀ (cs : List Check) (start : Nat) (id : CheckId),
+    id ∈ failedFrom cfg W mk cs start ↔
+      ∃ j c, cs[j]? = some c ∧ id = mk (start + j) ∧ checkHolds cfg W c = false
+  | [], start, id => by simp [failedFrom]
+  | c :: cs, start, id => by
+    have ih := mem_failedFrom cfg W mk cs (start + 1) id
+    have key : (∃ j c', (c :: cs)[j]? = some c' ∧ id = mk (start + j) ∧ checkHolds cfg W c' = false) ↔
+        (id = mk start ∧ checkHolds cfg W c = false) ∨
+        ∃ j c', cs[j]? = some c' ∧ id = mk (start + 1 + j) ∧ checkHolds cfg W c' = false := by
+      constructor
+      · rintro ⟨j, c', hj, hid, hc⟩
+        cases j with
+        | zero =>
+          simp only [List.getElem?_cons_zero, Option.some.injEq] at hj
+          subst hj
+          exact Or.inl ⟨hid, hc⟩
+        | succ j =>
+          simp only [List.getElem?_cons_succ] at hj
+          exact Or.inr ⟨j, c', hj, by rw [hid]; congr 1; omega, hc⟩
+      · rintro (⟨hid, hc⟩ | ⟨j, c', hj, hid, hc⟩)
+        · exact ⟨0, c, by simp, hid, hc⟩
+        · exact ⟨j + 1, c', by simpa using hj, by rw [hid]; congr 1; omega, hc⟩
+    rw [key]
+    unfold failedFrom
+    by_cases hc : checkHolds cfg W c = true
+    · rw [if_pos hc, ih]
+      constructor
+      · exact Or.inr
+      · rintro (⟨_, hc'⟩ | h)
+        · rw [hc] at hc'; cases hc'
+        · exact h
+    · rw [if_neg hc, List.mem_cons, ih]
+      have hc' : checkHolds cfg W c = false := by simpa using hc
+      constructor
+      · rintro (h | h)
+        · exact Or.inl ⟨h, hc'⟩
+        · exact Or.inr h
+      · rintro (⟨h, _⟩ | h)
+        · exact Or.inl h
+        · exact Or.inr h
+
+/-- Membership in a failure list, for an injective tag and a list of checks whose
+queries all complete. -/
+theorem mem_failedChecks (cfg : EvalCfg) (W : List DFact) (M : DFact → Prop)
+    (hM : ∀ f, f ∈ W ↔ M f) (mk : Nat → CheckId) (cs : List Check)
+    (h : ∀ c ∈ cs, ∀ q ∈ c.queries, (applyRule (evalBool cfg) q W []).2 = none)
+    (id : CheckId) :
+    id ∈ failedChecks cfg W mk cs ↔
+      ∃ j c, cs[j]? = some c ∧ id = mk j ∧ ¬ CheckHolds cfg M c := by
+  unfold failedChecks
+  rw [mem_failedFrom]
+  constructor
+  · rintro ⟨j, c, hj, hid, hc⟩
+    refine ⟨j, c, hj, by simpa using hid, ?_⟩
+    intro hh
+    have := (checkHolds_iff cfg W M hM c (h c (List.mem_of_getElem? hj))).mpr hh
+    rw [hc] at this; cases this
+  · rintro ⟨j, c, hj, hid, hc⟩
+    refine ⟨j, c, hj, by simpa using hid, ?_⟩
+    cases hb : checkHolds cfg W c with
+    | false => rfl
+    | true => exact absurd ((checkHolds_iff cfg W M hM c (h c (List.mem_of_getElem? hj))).mp hb) hc
+
+/-! ### First policy -/
+
+theorem firstPolicy_some_iff (cfg : EvalCfg) (W : List DFact) (M : DFact → Prop)
+    (hM : ∀ f, f ∈ W ↔ M f) (k : PolicyKind) :
+    ∀ (ps : List Policy),
+    (∀ p ∈ ps, ∀ q ∈ p.queries, (applyRule (evalBool cfg) q W []).2 = none) →
+    (firstPolicy cfg W ps = some k ↔ FirstPolicyIs cfg M ps k)
+  | [], _ => by
+    simp only [firstPolicy, FirstPolicyIs]
+    constructor
+    · intro h; cases h
+    · rintro ⟨pre, p, post, h, _⟩
+      cases pre <;> cases h
+  | p :: ps, h => by
+    have ih := firstPolicy_some_iff cfg W M hM k ps (fun p' hp' => h p' (List.mem_cons_of_mem _ hp'))
+    have hp : p.queries.any (queryHolds cfg W) = true ↔ PolicyHolds cfg M p :=
+      any_queryHolds_iff cfg W M hM p.queries (h p (List.mem_cons_self ..))
+    unfold firstPolicy
+    by_cases hh : p.queries.any (queryHolds cfg W) = true
+    · rw [if_pos hh]
+      constructor
+      · intro hk
+        simp only [Option.some.injEq] at hk
+        exact ⟨[], p, ps, rfl, hk, hp.mp hh, by simp⟩
+      · rintro ⟨pre, p', post, heq, hk, hholds, hpre⟩
+        cases pre with
+        | nil =>
+          simp only [List.nil_append, List.cons.injEq] at heq
+          rw [heq.1, hk]
+        | cons a pre =>
+          simp only [List.cons_append, List.cons.injEq] at heq
+          exact absurd (hp.mp hh) (heq.1 ▸ hpre a (List.mem_cons_self ..))
+    · rw [if_neg hh, ih]
+      constructor
+      · rintro ⟨pre, p', post, heq, hk, hholds, hpre⟩
+        refine ⟨p :: pre, p', post, by rw [heq]; rfl, hk, hholds, ?_⟩
+        intro a ha
+        rcases List.mem_cons.mp ha with rfl | ha
+        · exact fun hc => hh (hp.mpr hc)
+        · exact hpre a ha
+      · rintro ⟨pre, p', post, heq, hk, hholds, hpre⟩
+        cases pre with
+        | nil =>
+          simp only [List.nil_append, List.cons.injEq] at heq
+          exact absurd (hp.mpr (heq.1 ▸ hholds)) hh
+        | cons a pre =>
+          simp only [List.cons_append, List.cons.injEq] at heq
+          exact ⟨pre, p', post, heq.2, hk, hholds, fun b hb => hpre b (List.mem_cons_of_mem _ hb)⟩
+
+theorem firstPolicy_none_iff (cfg : EvalCfg) (W : List DFact) (M : DFact → Prop)
+    (hM : ∀ f, f ∈ W ↔ M f) :
+    ∀ (ps : List Policy),
+    (∀ p ∈ ps, ∀ q ∈ p.queries, (applyRule (evalBool cfg) q W []).2 = none) →
+    (firstPolicy cfg W ps = none ↔ ∀ p ∈ ps, ¬ PolicyHolds cfg M p)
+  | [], _ => by simp [firstPolicy]
+  | p :: ps, h => by
+    have ih := firstPolicy_none_iff cfg W M hM ps (fun p' hp' => h p' (List.mem_cons_of_mem _ hp'))
+    have hp : p.queries.any (queryHolds cfg W) = true ↔ PolicyHolds cfg M p :=
+      any_queryHolds_iff cfg W M hM p.queries (h p (List.mem_cons_self ..))
+    unfold firstPolicy
+    by_cases hh : p.queries.any (queryHolds cfg W) = true
+    · rw [if_pos hh]
+      constructor
+      · intro hk; cases hk
+      · intro hall
+        exact absurd (hp.mp hh) (hall p (List.mem_cons_self ..))
+    · rw [if_neg hh, ih]
+      constructor
+      · intro hall a ha
+        rcases List.mem_cons.mp ha with rfl | ha
+        · exact fun hc => hh (hp.mpr hc)
+        · exact hall a ha
+      · intro hall a ha
+        exact hall a (List.mem_cons_of_mem _ ha)
+
+/-! ### The block loop -/
+
+/-- Hypothesis of the fragment about later blocks, relative to the authority-level facts. -/
+def BlocksComplete (cfg : EvalCfg) (lim : Limits) (base : List DFact) (bs : List Block) : Prop :=
+  ∀ b ∈ bs, ∃ wb, runWorld cfg lim { facts := insertAll base b.facts, rules := b.rules } = (wb, none) ∧
+    ∀ c ∈ b.checks, ∀ q ∈ c.queries, (applyRule (evalBool cfg) q wb.facts []).2 = none
+
+theorem blockPhase_spec (cfg : EvalCfg) (A : Block) (s : AuthState) (lim : Limits)
+    (base : List DFact) (hbase : ∀ f, f ∈ base ↔ authorityScope cfg A s f) :
+    ∀ (bs : List Block) (idx : Nat) (acc : List CheckId), BlocksComplete cfg lim base bs →
+    ∃ out, blockPhase cfg lim base bs idx acc = .ok out ∧
+      ∀ id, id ∈ out ↔ id ∈ acc ∨
+        ∃ k b j c, bs[k]? = some b ∧ b.checks[j]? = some c ∧ id = CheckId.block (idx + k) j ∧
+          ¬ CheckHolds cfg (blockScope cfg A s b) c
+  | [], idx, acc, _ => by
+    refine ⟨acc, rfl, fun id => ?_⟩
+    simp
+  | b :: bs, idx, acc, h => by
+    obtain ⟨wb, hrun, hq⟩ := h b (List.mem_cons_self ..)
+    have hscope := blockRun_spec cfg A s lim b base hbase wb hrun
+    have hev : evalBlock cfg lim base b idx =
+        .ok (failedChecks cfg wb.facts (CheckId.block idx) b.checks) := by
+      unfold evalBlock
+      simp only [hrun]
+    obtain ⟨out, hout, hmem⟩ := blockPhase_spec cfg A s lim base hbase bs (idx + 1)
+      (acc ++ failedChecks cfg wb.facts (CheckId.block idx) b.checks)
+      (fun b' hb' => h b' (List.mem_cons_of_mem _ hb'))
+    refine ⟨out, ?_, fun id => ?_⟩
+    · simp only [blockPhase, hev]
+      exact hout
+    · rw [hmem id, List.mem_append,
+        mem_failedChecks cfg wb.facts _ hscope (CheckId.block idx) b.checks hq id]
+      constructor
+      · rintro ((h1 | ⟨j, c, hj, hid, hc⟩) | ⟨k, b', j, c, hk, hj, hid, hc⟩)
+        · exact Or.inl h1
+        · exact Or.inr ⟨0, b, j, c, by simp, hj, by simpa using hid, hc⟩
+        · exact Or.inr ⟨k + 1, b', j, c, by simpa using hk, hj,
+            by rw [hid]; congr 1; omega, hc⟩
+      · rintro (h1 | ⟨k, b', j, c, hk, hj, hid, hc⟩)
+        · exact Or.inl (Or.inl h1)
+        · cases k with
+          | zero =>
+            simp only [List.getElem?_cons_zero, Option.some.injEq] at hk
+            subst hk
+            exact Or.inl (Or.inr ⟨j, c, hj, by simpa using hid, hc⟩)
+          | succ k =>
+            simp only [List.getElem?_cons_succ] at hk
+            exact Or.inr ⟨k, b', j, c, hk, hj, by rw [hid]; congr 1; omega, hc⟩
+
+/-! ### `authorize` inside the fragment -/
+
+/-- The identifiers of the checks that do not hold, declaratively. -/
+def FailingId (cfg : EvalCfg) (tok : Token) (s : AuthState) (id : CheckId) : Prop :=
+  (∃ j c, s.checks[j]? = some c ∧ id = CheckId.authorizer j ∧
+      ¬ CheckHolds cfg (authorityScope cfg tok.authority s) c) ∨
+  (∃ j c, tok.authority.checks[j]? = some c ∧ id = CheckId.block 0 j ∧
+      ¬ CheckHolds cfg (authorityScope cfg tok.authority s) c) ∨
+  (∃ k b j c, tok.blocks[k]? = some b ∧ b.checks[j]? = some c ∧ id = CheckId.block (k + 1) j ∧
+      ¬ CheckHolds cfg (blockScope cfg tok.authority s b) c)
+
+/-- Inside the fragment, `authorize` reports the failing checks if there are any and
+otherwise the kind of the first policy satisfied in the authority-level world. -/
+theorem authorize_frag (cfg : EvalCfg) (tok : Token) (s : AuthState)
+    (hf : WithinFragment cfg tok s) :
+    ∃ (w : World) (ids : List CheckId),
+      (∀ f, f ∈ w.facts ↔ authorityScope cfg tok.authority s f) ∧
+      (∀ p ∈ s.policies, ∀ q ∈ p.queries, (applyRule (evalBool cfg) q w.facts []).2 = none) ∧
+      (authorize cfg tok s).2 =
+        (if ids.isEmpty then policyVerdict (firstPolicy cfg w.facts s.policies)
+         else .checksFailed ids) ∧
+      ∀ id, id ∈ ids ↔ FailingId cfg tok s id := by
+  obtain ⟨w, hw⟩ := hf.authorityRun
+  obtain ⟨hqc, hqp⟩ := hf.authorityQueries w hw
+  have hscope := authorityRun_spec cfg tok.authority s w hw
+  obtain ⟨out, hout, hmem⟩ := blockPhase_spec cfg tok.authority s s.limits w.facts hscope
+    tok.blocks 1
+    (failedChecks cfg w.facts CheckId.authorizer s.checks ++
+      failedChecks cfg w.facts (CheckId.block 0) tok.authority.checks)
+    (hf.blockRuns w hw)
+  refine ⟨w, out, hscope, hqp, ?_, fun id => ?_⟩
+  · simp only [authorize, authorizeWith, authorityPhase, hw, hout]
+    cases out <;> simp
+  · rw [hmem id, List.mem_append,
+      mem_failedChecks cfg w.facts _ hscope CheckId.authorizer s.checks
+        (fun c hc => hqc c (List.mem_append_left _ hc)) id,
+      mem_failedChecks cfg w.facts _ hscope (CheckId.block 0) tok.authority.checks
+        (fun c hc => hqc c (List.mem_append_right _ hc)) id]
+    unfold FailingId
+    constructor
+    · rintro ((h1 | h2) | ⟨k, b, j, c, hk, hj, hid, hc⟩)
+      · exact Or.inl h1
+      · exact Or.inr (Or.inl h2)
+      · exact Or.inr (Or.inr ⟨k, b, j, c, hk, hj, by rw [hid]; congr 1; omega, hc⟩)
+    · rintro (h1 | h2 | ⟨k, b, j, c, hk, hj, hid, hc⟩)
+      · exact Or.inl (Or.inl h1)
+      · exact Or.inl (Or.inr h2)
+      · exact Or.inr ⟨k, b, j, c, hk, hj, by rw [hid]; congr 1; omega, hc⟩
+
+/-! ### Reading the verdict -/
+
+theorem policyVerdict_ok_iff (o : Option PolicyKind) : policyVerdict o = .ok ↔ o = some .allow := by
+  cases o with
+  | none => simp [policyVerdict]
+  | some k => cases k <;> simp [policyVerdict]
+
+theorem policyVerdict_denied_iff (o : Option PolicyKind) :
+    policyVerdict o = .denied ↔ o = some .deny := by
+  cases o with
+  | none => simp [policyVerdict]
+  | some k => cases k <;> simp [policyVerdict]
+
+theorem policyVerdict_noMatch_iff (o : Option PolicyKind) : policyVerdict o = .noMatch ↔ o = none := by
+  cases o with
+  | none => simp [policyVerdict]
+  | some k => cases k <;> simp [policyVerdict]
+
+theorem policyVerdict_ne_checksFailed (o : Option PolicyKind) (ids : List CheckId) :
+    policyVerdict o ≠ .checksFailed ids := by
+  cases o with
+  | none => simp [policyVerdict]
+  | some k => cases k <;> simp [policyVerdict]
+
+theorem policyVerdict_ne_runError (o : Option PolicyKind) (e : RunErr) :
+    policyVerdict o ≠ .runError e := by
+  cases o with
+  | none => simp [policyVerdict]
+  | some k => cases k <;> simp [policyVerdict]
+
+/-- No identifier is failing exactly when every check holds in its scope. -/
+theorem no_failing_iff (cfg : EvalCfg) (tok : Token) (s : AuthState) :
+    (∀ id, ¬ FailingId cfg tok s id) ↔
+      (∀ c ∈ s.checks, CheckHolds cfg (authorityScope cfg tok.authority s) c) ∧
+      (∀ c ∈ tok.authority.checks, CheckHolds cfg (authorityScope cfg tok.authority s) c) ∧
+      (∀ b ∈ tok.blocks, ∀ c ∈ b.checks, CheckHolds cfg (blockScope cfg tok.authority s b) c) := by
+  constructor
+  · intro h
+    refine ⟨fun c hc => ?_, fun c hc => ?_, fun b hb c hc => ?_⟩
+    · obtain ⟨j, hj⟩ := List.mem_iff_getElem?.mp hc
+      exact Classical.byContradiction fun hn =>
+        h (CheckId.authorizer j) (Or.inl ⟨j, c, hj, rfl, hn⟩)
+    · obtain ⟨j, hj⟩ := List.mem_iff_getElem?.mp hc
+      exact Classical.byContradiction fun hn =>
+        h (CheckId.block 0 j) (Or.inr (Or.inl ⟨j, c, hj, rfl, hn⟩))
+    · obtain ⟨k, hk⟩ := List.mem_iff_getElem?.mp hb
+      obtain ⟨j, hj⟩ := List.mem_iff_getElem?.mp hc
+      exact Classical.byContradiction fun hn =>
+        h (CheckId.block (k + 1) j) (Or.inr (Or.inr ⟨k, b, j, c, hk, hj, rfl, hn⟩))
+  · rintro ⟨h1, h2, h3⟩ id (⟨j, c, hj, _, hn⟩ | ⟨j, c, hj, _, hn⟩ | ⟨k, b, j, c, hk, hj, _, hn⟩)
+    · exact hn (h1 c (List.mem_of_getElem? hj))
+    · exact hn (h2 c (List.mem_of_getElem? hj))
+    · exact hn (h3 b (List.mem_of_getElem? hk) c (List.mem_of_getElem? hj))
+
+theorem eq_nil_iff_no_failing {cfg : EvalCfg} {tok : Token} {s : AuthState} {ids : List CheckId}
+    (hmem : ∀ id, id ∈ ids ↔ FailingId cfg tok s id) :
+    ids = [] ↔ ∀ id, ¬ FailingId cfg tok s id := by
+  constructor
+  · intro h id hid
+    have := (hmem id).mpr hid
+    rw [h] at this
+    cases this
+  · intro h
+    cases ids with
+    | nil => rfl
+    | cons a as => exact absurd ((hmem a).mp (List.mem_cons_self ..)) (h a)
+
 end Biscuit
